@@ -35,8 +35,27 @@ def run(ctx):
     cfg = f.cfg
     st = dict(prog.enum('FIX8::States::SessionStates')['e'])
 
+    def ts_reads(n, depth=0):
+        """which of the two activity timestamps an expression reads, directly or through locals initialised from them"""
+        out = set()
+        for x in n.walk():
+            if x.k == 'MemberExpr' and x.decl and x.decl.get('qp') in (S + '_last_sent', S + '_last_received'):
+                out.add(x.decl['qp'].split('::')[-1])
+            if x.k == 'DeclRefExpr' and x.decl and x.decl.get('sc') == 'local' and depth < 3:
+                for (dn, kind, val) in q.local_defs(f, x.declid):
+                    if val is not None:
+                        out |= ts_reads(val, depth + 1)
+        return out
+
     def classify(a):
         s = a.strip(casts=True)
+        interval_rhs = s.k == 'BinaryOperator' and len(s.children) == 2 and any(x.is_call and x.callee_qp in ('FIX8::Connection::get_hb_interval', 'FIX8::Connection::get_hb_interval20pc')
+                                                                                 for x in s.children[1].walk())
+        if interval_rhs and ts_reads(s.children[0]):
+            return 'time'
+        if ts_reads(s) and not interval_rhs and not (s.k == 'BinaryOperator' and any(x.is_call and x.callee_qp == 'FIX8::Tickval::secs' for x in s.walk())) \
+                and not (s.is_call and s.callee_qp == 'FIX8::Tickval::secs'):
+            return 'tsel'      # a choice between the two timestamps (e.g. max(_last_sent, _last_received)): unconstrained, judged at the timing test
         if s.is_call and s.callee_qp == S + 'is_shutdown':
             return 'shutdown'
         if s.k == 'MemberExpr' and s.decl and s.decl.get('qp') == S + '_connection':
@@ -73,10 +92,12 @@ def run(ctx):
     times = [(b, a, pol) for b, (c, a, pol) in cls.items() if c == 'time']
     ctx.check(len(times) == 2, 'R22.1', S + 'heartbeat_service#time-atoms', f.loc, 'exactly two timing decisions')
     A = {}
+    mixed = False
     for (b, a, pol) in times:
         s = a.strip(casts=True)
         l, r = s.children
-        lhs_sent, lhs_recv = q.reads_member(l, S + '_last_sent'), q.reads_member(l, S + '_last_received')
+        tsr = ts_reads(l)
+        lhs_sent, lhs_recv = '_last_sent' in tsr, '_last_received' in tsr
         shape = (any(x.is_call and x.callee_qp == 'FIX8::Tickval::secs' for x in l.walk()) and
                  any(x.is_call and x.r.get('op') == '-' for x in l.walk()))
         hb = any(x.is_call and x.callee_qp == 'FIX8::Connection::get_hb_interval' for x in r.walk())
@@ -92,7 +113,15 @@ def run(ctx):
                       'idle-receive test is (now - _last_received).secs() > heartbeat interval + 20%',
                       'idle-receive test is `%s` — expected (now - _last_received).secs() > get_hb_interval20pc()' % a.text())
         else:
-            ctx.fail('R22.1', S + 'heartbeat_service#time-atom.operands', a.loc, 'timing test mixes/omits the timestamps: ' + a.text())
+            hbx = any(x.is_call and x.callee_qp == 'FIX8::Connection::get_hb_interval' for x in r.walk())
+            ctx.fail('R22.1', S + 'heartbeat_service#time-atom.operands', a.loc,
+                     'the timing test `%s` measures idleness from %s: %s' % (a.text(), ' and '.join(sorted(tsr)) or 'neither timestamp',
+                     'a Heartbeat is due when nothing was SENT for the interval, whatever was received - a peer that keeps sending suppresses our heartbeats' if hbx
+                     else 'the TestRequest/Logout supervision must look at what was RECEIVED only'))
+            mixed = True
+    if mixed and not ('A1' in A and 'A2' in A):
+        ctx.note('decision table of heartbeat_service not evaluated: a timing atom does not have the expected operands (reported above)')
+        return _rest(ctx, prog, f, S, st)
     ctx.need('A1' in A and 'A2' in A, 'timing atoms A1/A2 not both identified')
 
     actions = {
@@ -165,6 +194,11 @@ def run(ctx):
     ctx.check(rs and all(q.return_value(r) == 0 for r in rs), 'R22.1', S + 'heartbeat_service#shutdown.stops-timer', f.loc,
               'returns false (timer not re-armed) once shut down')
 
+    return _rest(ctx, prog, f, S, st)
+
+
+def _rest(ctx, prog, f, S, st):
+    cfg = f.cfg
     # ---------------- R22.2
     n22 = 0
     for fn in prog.all_functions():
@@ -226,6 +260,13 @@ def run(ctx):
                     s.children[1].strip(casts=True).value == st['st_test_request_sent']:
                 ok = True
     ctx.check(ok, 'R22.3', S + 'handle_heartbeat#resume', hh.loc, 'inbound Heartbeat in state test_request_sent returns to continuous')
+    # ... whatever the Heartbeat carries: the transition may depend on the session state only
+    for c in cont:
+        extra = [a for a, pol in q.controlling_atoms(hh, c) if any(x.k == 'DeclRefExpr' and x.declid == hh.param_ids[1] for x in a.walk())]
+        ctx.check(not extra, 'R22.3', S + 'handle_heartbeat#resume.unconditional', c.loc,
+                  'the return to continuous does not depend on the content of the Heartbeat',
+                  'the return to continuous additionally requires `%s`: a plain Heartbeat arriving while a TestRequest is pending leaves the session in '
+                  'test_request_sent, and the next supervision tick logs out instead of probing again' % (extra[0].text() if extra else ''))
 
     # ---------------- R22.4
     sp = prog.fn1(S + 'send_process')
